@@ -3,6 +3,8 @@ import itertools, os, random
 import vlib
 
 ID = "C17"
+COQ_TARGETS = ["Properties_C17.vo", "Extract_C17.vo", "Extract_Sched.vo"]   # the lifecycle stage replays through Conc/Sched.v
+DRIVERS = ["c17", "sched"]
 MANIFEST = {
     "text": "Theorems (Coq, unbounded): for every sequence of ABT_xstream_create / create_with_rank / set_rank (also on self) / "
             "join / revive / free / queries, the pointer-level model of stream.c's rank list (head, per-stream rank/p_prev/"
@@ -265,11 +267,34 @@ def history_stage(rep, sc, lib, cov, tier, seed):
                       found_input=obs, text="%s\n   %s" % (c, v))
 
 
+def lifecycle_stage(rep, sc, lib, cov, tier, seed):
+    """third stage (scheduler harness, LTS Conc/Sched.v): a pending ABT_xstream_join / free must survive the
+    replacement of the stream's main scheduler (ABT_xstream_set_main_sched called by a ULT of that stream):
+    the join returns, and only after that ULT has finished.  Scenario family schedgen.gen_replace; every history is
+    replayed through the extracted scheduler LTS and judged by its monitors."""
+    import hist, schedgen
+    history_stage(rep, sc, lib, cov, tier, seed)
+    if rep.violations:
+        return
+    ok, lib2, err = vlib.get_lib(sc)
+    if not ok:
+        return
+
+    def g(rng, t):
+        n = 16 if t == "quick" else 300
+        return [schedgen.gen_replace(rng) for _ in range(n)], {"scenarios": n, "families": ["gen_replace"]}
+    cov2 = hist.history_stage(rep, True, sc, lib2, ID, "sched", "h_sched.c", g, tier, seed,
+                              rule="scheduler replacement with a pending stream join", sweep_kinds=(54, 53),
+                              sweep_n=16 if tier == "quick" else 100)
+    cov["sched_replacement_scenarios"] = cov2.get("evaluations", 0)
+    cov["sched_replacement_events_replayed"] = cov2.get("events_replayed", 0)
+
+
 def run(tier, seed, replay):
     return vlib.run_differential_property(
         ID, "Properties_C17.v", ["Properties_C17.vo", "Extract_C17.vo"], "c17", "h_c17.c",
         gen, classify, nontrivial, tier, seed, replay=replay, san=True, known_match=known_match,
-        extra_stage=history_stage,
+        extra_stage=lifecycle_stage,
         rule="X: white-box calls of xstream_set_new_rank/change_rank/return_rank on a private ABTI_global, all sequences of "
              "length<=L over 20 ops (ranks auto,0..3; 3 nodes) + seeded; A: public API with real streams, all sequences of "
              "length<=L over 16 ops (create, create_with_rank 1..3, set_rank x3 streams x3 ranks, free) + seeded sequences with "
